@@ -4,7 +4,7 @@ import random
 
 from .. import env  # noqa: F401  (import path)
 from ..jsonref import canon, roundtrip, type_exact_equal, shares_mutable, json_equal
-from ..values import sized_values, rand_value, ATOMS
+from ..values import sized_values, rand_value, ATOMS, mined_candidates
 
 CONFIG = {
     'level': 'exploration',
@@ -15,11 +15,14 @@ CONFIG = {
              'str/int/float/list/dict/tuple subclasses): sanitize == json.loads(json.dumps(v)) type-exactly, '
              'idempotent, alias-free, TypeError on non-JSON; ALL ordered pairs: is_equal(a,b) == independent '
              'JSON equality, symmetric, to_hashable(a)==to_hashable(b) <=> JSON-equal, hash agrees; all triples '
-             'of a subset for transitivity; (2) random values to depth 6 with near-miss mutants. evaluations = '
+             'of a subset for transitivity; output-guided second preimages: the observed to_hashable form of every '
+             'subtree is re-read as a list / flat dict / scalar with and without its leading tag and substituted '
+             '(collisions through the encoding\'s own tags are constructed, not guessed); (2) random values to '
+             'depth 6 with near-miss mutants and mined preimages. evaluations = '
              'law evaluations; distinct_nontrivial = distinct pairs that are JSON-equal but not identical, or '
              'Python-== but not JSON-equal (the collision pairs)'),
     'exhaustive_layer': 'all values with <=3 nodes over the 13 atoms: every value (sanitize laws) and every ordered pair (equality/hash laws)',
-    'gates': ['pairs', 'sanitize_checked', 'triples', 'typeerror_cases'],
+    'gates': ['pairs', 'sanitize_checked', 'triples', 'typeerror_cases', 'mined_pairs'],
 }
 
 
@@ -224,6 +227,20 @@ def run_shard(sh):
                                  {'a': repr(vals[x])[:80], 'b': repr(vals[y])[:80], 'c': repr(vals[z])[:80]},
                                  {'kind': 'c18', 'a': repr(vals[x]), 'b': repr(vals[y]), 'c': repr(vals[z])})
         sh.count('triples', len(sub) * len(sub))
+    # ---------------- (1d) output-guided second preimages: the observed hashable form of every
+    #                  subtree re-read as the other container kinds / scalars (values.mined_candidates)
+    def mined_pairs(sv, cs, hs):
+        for c in mined_candidates(JsonUtil.to_hashable, sv):
+            try:
+                sc = json.loads(json.dumps(c))
+                hc = JsonUtil.to_hashable(sc)
+            except (TypeError, ValueError):
+                continue
+            check_pair(sh, JsonUtil, sv, sc, cs, canon(sc), hs, hc)
+            sh.count('mined_pairs')
+    for i in range(sh.idx, n, sh.n):
+        if hashables[i] is not None:
+            mined_pairs(vals[i], canons[i], hashables[i])
     # ---------------- (2) random deeper values + near misses
     from ..values import near_misses
     while sh.time_left() > 0:
@@ -243,6 +260,7 @@ def run_shard(sh):
                 continue
             check_pair(sh, JsonUtil, sv, sm, cs, canon(sm), hs, JsonUtil.to_hashable(sm))
             sh.count('random_pairs')
+        mined_pairs(sv, cs, hs)
         if len(sh.samples) < 2:
             sh.sample({'value': repr(v)[:200], 'sanitized': repr(sv)[:200],
                        'near_misses': [repr(m)[:80] for m in near_misses(rng, sv)[:4]]})
